@@ -334,12 +334,18 @@ def mutArea (t : List α) (lik : List (α × α)) (edges : List (Nat × Nat)) :
   let ec := (edges.zip lik).foldl (areaEdge t bi.2 ne) (List.replicate ne (0, 0))
   (cumsum (ec.map (fun x => x.1)), cumsum (ec.map (fun x => x.2)), diff bi.1, bi.2)
 
-/-- `_fixed_changepoints(counts, epochs)` (numba's `np.linspace(0, 1, n+1)[k]` is `0 + 1*(k/n)`) -/
+/-- `_fixed_changepoints(counts, epochs)`:
+
+    Y = np.append(0.0, np.cumsum(counts))
+    e = np.searchsorted(Y * epochs, np.arange(epochs + 1) * Y[-1], "right") - 1
+    if e[0] > 0: e[0] = 0
+    if e[-1] < counts.size: e[-1] = counts.size
+-/
 def fixedChangepoints (ofNat : Nat → α) (w : List α) (epochs : Nat) : List Nat :=
   let Y := 0 :: cumsum w
   let last := Y.getLast?.getD 0
-  let Z := Y.map (fun y => y / last)
-  let e := (List.range (epochs + 1)).map (fun k => searchRight Z (ofNat k / ofNat epochs) - 1)
+  let Ye := Y.map (fun y => y * ofNat epochs)
+  let e := (List.range (epochs + 1)).map (fun k => searchRight Ye (ofNat k * last) - 1)
   let e0 := match e with
     | [] => []
     | _ :: r => 0 :: r
@@ -349,6 +355,43 @@ def fixedChangepoints (ofNat : Nat → α) (w : List α) (epochs : Nat) : List N
 
 /-- `np.unique` on a list of indices -/
 def uniqueNat (xs : List Nat) : List Nat := (xs.mergeSort (fun a b => decide (a ≤ b))).eraseDups
+
+/-- one step of the merging loop at the end of `mutational_timescale`; state = (kept indices, newest first;
+`last`; `prev`):
+
+    if origin[k] > origin[last] and adjust[k] > adjust[last]: keep[k] = True; prev = last; last = k
+-/
+def mergeStep (origin adjust : List α) (st : List Nat × Nat × Nat) (k : Nat) : List Nat × Nat × Nat :=
+  if nth origin st.2.1 < nth origin k ∧ nth adjust st.2.1 < nth adjust k then (k :: st.1, k, st.2.1) else st
+
+/-- the end of `mutational_timescale`: breakpoints that do not strictly increase both `origin` and `adjust`
+are merged into their neighbours; the identity scale `([o_0, o_end], [o_0, o_end])` if nothing is informative:
+
+    keep[0] = True; last = prev = 0
+    for k in range(1, origin.size): (mergeStep)
+    end = origin.size - 1
+    if last == 0: return origin[[0, end]], origin[[0, end]]
+    if last != end:
+        keep[last] = False; keep[end] = True
+        if not (origin[end] > origin[prev] and adjust[end] > adjust[prev]): return origin[[0, end]], origin[[0, end]]
+    return origin[keep], adjust[keep]
+-/
+def mergeBreaks (origin adjust : List α) : List α × List α :=
+  let n := origin.length
+  let st := (List.range n).tail.foldl (mergeStep origin adjust) ([0], 0, 0)
+  let last := st.2.1
+  let prev := st.2.2
+  let end_ := n - 1
+  let ident := ([nth origin 0, nth origin end_], [nth origin 0, nth origin end_])
+  if last = 0 then ident
+  else if last ≠ end_ then
+    if nth origin prev < nth origin end_ ∧ nth adjust prev < nth adjust end_ then
+      let kept := (end_ :: st.1.tail).reverse
+      (kept.map (nth origin), kept.map (nth adjust))
+    else ident
+  else
+    let kept := st.1.reverse
+    (kept.map (nth origin), kept.map (nth adjust))
 
 /-- `mutational_timescale(nodes_time, likelihoods, nodes_fixed, edges_parent, edges_child, max_intervals)`
 → `(origin, adjust)` -/
@@ -362,7 +405,7 @@ def mutTimescale (ofNat : Nat → α) (t : List α) (lik : List (α × α)) (edg
   let cp := uniqueNat (fixedChangepoints ofNat (List.zipWith (· * ·) offset duration) maxIntervals)
   let adj := (cp.zip cp.tail).map (fun ij =>
     sumRange duration ij.1 ij.2 * sumRange counts ij.1 ij.2 / sumRange offset ij.1 ij.2)
-  (cp.map (fun i => nth epochBreaks i), cumsum (0 :: adj))
+  mergeBreaks (cp.map (fun i => nth epochBreaks i)) (cumsum (0 :: adj))
 
 /-- `piecewise_scale_point_estimate(point_estimate, point_fixed, original_breaks, rescaled_breaks)` -/
 def piecewisePoint (x : List α) (fixed : List Bool) (orig resc : List α) : List α :=
@@ -508,6 +551,48 @@ def edgeUpdate (P : Projections α) (edges : List (Nat × Nat)) (lik : List (α 
     let pr := P.gamma pcav ccav (sc2 delta l)
     let s1 := absorb maxShape s ei true p delta pcav pr.1
     absorb maxShape s1 ei false c delta ccav pr.2
+
+/-- What one iteration of the loop of `propagate_likelihood` hands to a projection kernel. -/
+inductive EdgeCase (α : Type) where
+  | skip
+  | leaf (tp : α) (c : Nat) (delta : α) (cav lik : α × α)
+  | root (tc : α) (p : Nat) (delta : α) (cav lik : α × α)
+  | joint (p c : Nat) (delta : α) (pcav ccav lik : α × α)
+
+/-- first half of `edgeUpdate`: the optional `_rescale_factors`, the damping factors and the cavities -/
+def edgePre (edges : List (Nat × Nat)) (lik : List (α × α)) (fixedAge : List (Option α))
+    (minStep tiny : α) (s0 : EPState α) (ei : Nat) : EPState α × EdgeCase α :=
+  let e := edges.getD ei (0, 0)
+  let p := e.1
+  let c := e.2
+  let s := if nth s0.scale p < tiny || nth s0.scale c < tiny then rescaleFactors edges s0 else s0
+  let f := getF s.edgeFac ei
+  let l := getP lik ei
+  match fixedAge.getD p none, fixedAge.getD c none with
+  | some _, some _ => (s, .skip)
+  | some tp, none =>
+    let msg := sc2 (nth s.scale c) f.2
+    let delta := damp (getP s.post c) msg minStep
+    (s, .leaf tp c delta (sub2 (getP s.post c) (sc2 delta msg)) (sc2 delta l))
+  | none, some tc =>
+    let msg := sc2 (nth s.scale p) f.1
+    let delta := damp (getP s.post p) msg minStep
+    (s, .root tc p delta (sub2 (getP s.post p) (sc2 delta msg)) (sc2 delta l))
+  | none, none =>
+    let pmsg := sc2 (nth s.scale p) f.1
+    let cmsg := sc2 (nth s.scale c) f.2
+    let delta := pmin (damp (getP s.post p) pmsg minStep) (damp (getP s.post c) cmsg minStep)
+    (s, .joint p c delta (sub2 (getP s.post p) (sc2 delta pmsg)) (sub2 (getP s.post c) (sc2 delta cmsg)) (sc2 delta l))
+
+/-- second half of `edgeUpdate`: the projection and the factor / posterior / scale updates -/
+def edgePost (P : Projections α) (maxShape : α) (ei : Nat) (sc : EPState α × EdgeCase α) : EPState α :=
+  match sc.2 with
+  | .skip => sc.1
+  | .leaf tp c delta cav lik => absorb maxShape sc.1 ei false c delta cav (P.leafward tp cav lik)
+  | .root tc p delta cav lik => absorb maxShape sc.1 ei true p delta cav (P.rootward tc cav lik)
+  | .joint p c delta pcav ccav lik =>
+    let pr := P.gamma pcav ccav lik
+    absorb maxShape (absorb maxShape sc.1 ei true p delta pcav pr.1) ei false c delta ccav pr.2
 
 /-- `propagate_likelihood` over an edge order -/
 def likelihoodPass (P : Projections α) (edges : List (Nat × Nat)) (lik : List (α × α))
